@@ -5,7 +5,7 @@ CONSTANTS
   RootClasses <- RootsCustom
   FilterStrs <- FilterCustom
   AssignSpecs <- AssignCustom
-  MaxSteps = 2
+  MaxSteps = 3
   DirectCalls = TRUE
 INVARIANT Shape
 INVARIANT Resolves
